@@ -38,7 +38,15 @@ impl log4rs::append::Append for ScriptedAppender {
     fn append(&self, _r: &log::Record) -> anyhow::Result<()> {
         self.n.fetch_add(1, Ordering::SeqCst);
         if self.fail {
-            anyhow::bail!("scripted failure")
+            // what kind of error an appender returns is its own business - a message, or an I/O error of whatever kind
+            // ("interrupted" and "would block" among them) -: it is one error, handed to the handler once (Fanout.tla)
+            static KIND: AtomicUsize = AtomicUsize::new(0);
+            return match KIND.fetch_add(1, Ordering::Relaxed) % 4 {
+                0 => Err(anyhow::anyhow!("scripted failure")),
+                1 => Err(std::io::Error::from(std::io::ErrorKind::Interrupted).into()),
+                2 => Err(std::io::Error::from(std::io::ErrorKind::WouldBlock).into()),
+                _ => Err(anyhow::Error::from(std::io::Error::from(std::io::ErrorKind::Interrupted)).context("while appending")),
+            };
         }
         Ok(())
     }
